@@ -427,8 +427,13 @@ package bgp
 // far and as the error just raised for the current attribute
 //@   at-return requires errClass(ret0) >= errClass(strongestError)
 //@   at-return requires e != nil ==> errClass(ret0) >= errClass(e)
+// from C06 "treat-as-withdraw ... its NLRI withdrawn": an UPDATE that is to be treated as withdraw comes back with
+// its NLRI field decoded (RFC 7606 4: the field is located by the total attribute length, whatever the attributes
+// inside look like) - without the prefixes there is nothing to withdraw
+//@   at-return requires errClass(ret0) == ERROR_HANDLING_TREAT_AS_WITHDRAW ==> msg.NLRI != nil
 //@   loop 1 decreases int(pathlen)
 //@   loop 2 invariant restlen <= len(data)
+//@   loop 2 invariant msg.NLRI != nil
 //@   loop 2 invariant (strongestError == nil || isMsgErr(strongestError)) && errClass(strongestError) <= ERROR_HANDLING_SESSION_RESET
 //@   loop 2 decreases restlen
 
